@@ -174,6 +174,13 @@ Proof.
     + eapply fr_trans; [|apply fr_same_actors; reflexivity]. eapply fr_trans; [|apply fr_notify_all]. apply fr_set_registry.
     + eapply fr_trans; [|apply fr_deliver_sys]. eapply fr_trans; [|apply fr_notify_all]. apply fr_set_registry.
 Qed.
+Lemma fr_start_instance s u self parent s' o p : start_instance roles s u self parent = (s', o, p) -> fr s s'.
+Proof.
+  unfold start_instance. destruct (handle roles s u TRD 0%nat self) as [[s1 o1] p1] eqn:E1.
+  destruct (handle roles s1 u TL 0%nat parent) as [[s2 o2] p2] eqn:E2. intros H; inversion H; subst.
+  eapply fr_trans; [eapply fr_handle; exact E1|]. eapply fr_trans; [eapply fr_handle; exact E2|].
+  destruct p2; [apply fr_refl|apply fr_upd_actor; intros b; apply R_accidents].
+Qed.
 Lemma fr_try_restarted s u snd s' o p : try_restarted roles s u snd = (s', o, p) -> fr s s'.
 Proof.
   unfold try_restarted. destruct (get s u) as [a|] eqn:Ea; [|intros H; inversion H; subst; apply fr_refl].
@@ -183,8 +190,8 @@ Proof.
   - intros s1 o1 p1 E. eapply fr_handle; exact E.
   - intros s1 s2 o2 p2. apply (bind_rel fr); [apply fr_trans| |].
     + intros sa oa pa E. eapply fr_handle; exact E.
-    + intros sa sb ob pb. destruct (provide sa (a_tok a)) as [s3 inst] eqn:Ep. intros H; inversion H; subst.
-      eapply fr_trans; [|apply fr_deliver_sys]. eapply fr_trans; [|apply fr_deliver_sys]. eapply fr_trans; [|apply fr_deliver_sys].
+    + intros sa sb ob pb. destruct (provide sa (a_tok a)) as [s3 inst] eqn:Ep. intros H.
+      eapply fr_trans; [|eapply fr_start_instance; exact H]. eapply fr_trans; [|apply fr_deliver_sys].
       eapply fr_trans; [|apply fr_upd_actor; intros b; apply (R_trans b (w_inst inst b)); [apply R_inst|apply R_st]].
       apply fr_same_actors; unfold provide in Ep; inversion Ep; subst; reflexivity.
 Qed.
